@@ -15,6 +15,14 @@ NA = {
 PENDING = "static check designed in DESIGN.md section 3 but not built yet; not claimed until it exists"
 
 CHECKS = {
+ "C11": dict(level="proof", technique="IR path enumeration + constant-folded decision table + field-provenance taint over the ctx layer",
+   text="All 28 built _ctx_mgr_submit_<family> functions and the 5 isal_ submit wrappers are decided on every path: reject paths contain exactly the error store and no call (so manager, in-flight contexts, hash state and status are untouched); every accepted path clears ctx->error before the context can reach the manager; the (flags,status) decision table obtained by constant folding the guards equals the documented one; a wrapper's non-zero code mapped from an error field is provably about the submitted context; the error->code mapping is total and injective. Structural decision of the property's 'changes nothing / poisons no later call' clauses; digests of the other jobs are C01 (not applicable).",
+   note="Trusted: clang-14 -O0 IR mirrors the C source; DWARF enumerators. The manager assembly is unreachable from reject paths because they contain no call. Base variants: the PROCESSING row is not judged (synchronous).",
+   ref="3/C11"),
+ "C16": dict(level="proof", technique="IR path enumeration over loop-free wrappers: guard-before-use typestate per pointer parameter, effect-free error paths, sibling guard-set agreement, legacy/isal_ forwarding equivalence",
+   text="All 69 algorithm isal_ wrappers (default SAFE_PARAM build) are enumerated path by path: every pointer parameter is compared with NULL before any use, optional pointers are admitted only under a scalar-only condition whose other edge is an error return; every path returning a non-zero constant is effect-free; every working path returns 0 or the callee's result; wrappers with the same parameter list evaluate the same argument conditions (one confirmed minority idiom frozen); all 69 legacy wrappers forward their parameters in the same roles to the same internal callee as their isal_ twin. Decides the structure of the property, exhaustively over wrappers and paths.",
+   note="Not decided: reads through a NULL-admitted optional pointer inside the internal callee (len == 0), and value equality of legacy vs isal_ results beyond 'same callee, same argument roles'. Documented domains in headers are prose; sibling consensus is the oracle for scalar domain checks.",
+   ref="3/C16"),
  "C13": dict(level="proof", technique="IR dominance / gate-edge reachability over clang -O0+mem2reg IR of the FIPS_MODE build",
    text="Every isal_ entry point defined by the FIPS_MODE build is classified and decided on all paths: approved ones have every call/store dominated by the pass edge of the isal_self_tests() gate with the fail edge returning ISAL_CRYPTO_ERR_SELF_TEST effect-free; non-approved ones can only return ISAL_CRYPTO_ERR_FIPS_INVALID_ALGO and have no effects; the 8 XTS wrappers compare the two keys over their full extent first; isal_self_tests itself returns 0 only after a passing status or passing fresh run. Exhaustive over entry points and paths, so a proof of the structural rule.",
    note="Trusted: clang-14 IR at -O0 mirrors the C control flow; Makefile.unx FIPS_MODE=y flags are what a FIPS build uses; approved/non-approved classification by unit directory (as the property states it). The asm status protocol behind isal_self_tests is C17's job.",
